@@ -102,14 +102,17 @@ def member_options(m, sockdir):
     return o
 
 
-def group_sections(g, sockdir, changed=False):
+def group_sections(g, sockdir, changed=False, new=False):
     k = g['kind']
     ms = g['members']
+    events = list(g.get('events') or ['TICK_5'])
+    if new and g.get('reorder'):
+        events.reverse()          # same subscriptions, other order on the events= line
     extra = [('umask', '027')] if changed else []
     if k == 'program':
         return [('program:%s' % g['name'], member_options(ms[0], sockdir) + extra)]
     if k == 'listener':
-        return [('eventlistener:%s' % g['name'], member_options(ms[0], sockdir) + [('events', 'TICK_5')] + extra)]
+        return [('eventlistener:%s' % g['name'], member_options(ms[0], sockdir) + [('events', ','.join(events))] + extra)]
     if k == 'fcgi':
         return [('fcgi-program:%s' % g['name'], member_options(ms[0], sockdir)
                  + [('socket', 'unix://%s/%s.sock' % (sockdir, g['name']))] + extra)]
@@ -125,9 +128,9 @@ def scenario_files(sc, sockdir, added_logs=False):
     for g in sc['groups']:
         old += group_sections(g, sockdir)
         if g['fate'] == 'keep':
-            new += group_sections(g, sockdir)
+            new += group_sections(g, sockdir, new=True)
         elif g['fate'] == 'change':
-            new += group_sections(g, sockdir, changed=True)
+            new += group_sections(g, sockdir, changed=True, new=True)
     for n in sc['added']:
         new.append(('program:%s' % n, [('command', '/sim/ok/%s' % n)]
                     + ([('stdout_logfile', '%s/%s.out.log' % (sockdir, n))] if added_logs else [])))
